@@ -101,3 +101,46 @@ def inline_lets(fn):
             changed = True
             break
     return fn
+
+
+def ast_match(pattern, node, binds=None):
+    """structural match of `node` against the statement/expression `pattern` (source text); names starting with `_` in the pattern are metavariables bound
+    consistently to Name identifiers (so the obligation does not depend on how locals are spelled).  Returns the bindings or None."""
+    pat = ast.parse(pattern).body[0]
+    if isinstance(pat, ast.Expr) and not isinstance(node, ast.Expr):
+        pat = pat.value
+    binds = dict(binds or {})
+
+    def m(p, n):
+        if isinstance(p, ast.Name) and p.id.startswith("_") and len(p.id) > 1:
+            if not isinstance(n, ast.Name):
+                return False
+            if p.id in binds:
+                return binds[p.id] == n.id
+            binds[p.id] = n.id
+            return True
+        if type(p) is not type(n):
+            return False
+        for f in p._fields:
+            if f in ("ctx", "type_comment", "lineno", "col_offset", "end_lineno", "end_col_offset", "kind"):
+                continue
+            a, b = getattr(p, f, None), getattr(n, f, None)
+            if isinstance(a, list):
+                if not isinstance(b, list) or len(a) != len(b) or not all(m(x, y) if isinstance(x, ast.AST) else x == y for x, y in zip(a, b)):
+                    return False
+            elif isinstance(a, ast.AST):
+                if not isinstance(b, ast.AST) or not m(a, b):
+                    return False
+            elif a != b:
+                return False
+        return True
+    return binds if m(pat, node) else None
+
+
+def ast_find(pattern, tree, binds=None):
+    """first node of `tree` matching `pattern` -> (node, bindings) or (None, None)"""
+    for n in ast.walk(tree):
+        b = ast_match(pattern, n, binds)
+        if b is not None:
+            return n, b
+    return None, None
